@@ -252,8 +252,17 @@ func CacheKeyShape(p *core.Program, r *core.Report, rule string) {
 				if nm, c := callName(info, as.Rhs[0]); nm == "variantFromLabelsMap" && len(c.Args) == 1 {
 					src = core.ExprStr(c.Args[0])
 					// the same labels expression is ranged over to fill the pod's Labels in this function
+					// (a copy loop, maps.Copy(<pod>.Labels, src), or the pod's Labels being src itself)
 					ast.Inspect(fd.Decl.Body, func(m ast.Node) bool {
 						if rs, isRs := m.(*ast.RangeStmt); isRs && core.ExprStr(rs.X) == src {
+							okA = true
+						}
+						if cc, isC := m.(*ast.CallExpr); isC && len(cc.Args) == 2 {
+							if fn := core.Callee(info, cc); fn != nil && fn.Pkg() != nil && fn.Pkg().Path() == "maps" && fn.Name() == "Copy" && core.ExprStr(cc.Args[1]) == src && fieldPathEndsWith(info, cc.Args[0], "Pod", "Labels") {
+								okA = true
+							}
+						}
+						if a2, isA := m.(*ast.AssignStmt); isA && len(a2.Lhs) == 1 && len(a2.Rhs) == 1 && fieldPathEndsWith(info, a2.Lhs[0], "Pod", "Labels") && core.ExprStr(a2.Rhs[0]) == src {
 							okA = true
 						}
 						return true
